@@ -329,11 +329,21 @@ def _x1_lattice(prog, res):
     fn = prog.function('lattice_lib.' + name)
     for loop in ast.walk(fn.node):
       if isinstance(loop, ast.For) and dotted(loop.target) == 'dim':
-        first = loop.body[0]
-        ok = (isinstance(first, ast.If) and isinstance(first.test, ast.Compare)
-              and norm_text(first.test.left) == 'monotonicities[dim]'
-              and const_value(first.test.comparators[0]) == 0
-              and isinstance(first.body[0], ast.Continue))
+        # every unstack / stack along `dim` runs only where
+        # monotonicities[dim] != 0 (guard-continue or enclosing if)
+        from ..cfg import structural_guards, canon_guard
+        sites = [c for c in ast.walk(loop) if isinstance(c, ast.Call) and (
+            prog.ext_name(fn.module, c.func) or '') in (
+                'tf.unstack', 'tf.stack') and any(
+                    k.arg == 'axis' and dotted(k.value) == 'dim'
+                    for k in c.keywords)]
+        if not sites:
+          raise AnalysisError('%s: no unstack along dim in the loop' %
+                              fn.loc(loop))
+        ok = all(('monotonicities[dim] == 0', False) in {
+            canon_guard(t, p)
+            for t, p in (structural_guards(fn.node, c) or [])}
+                 for c in sites)
         res.check(ok, 'X1', '%s|skip-unconstrained@%d' % (
             fn.qualname, loop.lineno - fn.node.lineno), fn.loc(loop),
                   'dimensions with monotonicity 0 (incl. the units dimension) '
